@@ -348,6 +348,44 @@ def build():
             ensures=NT_INV('len(g_name)', 'result.fields', quant) + ['implies(ctx.protocol_version >= (2, 0), result.ancestors is not None and result.ancestors == g_anc)',
                                                                      'implies(not (ctx.protocol_version >= (2, 0)), result.ancestors is None)'],
             hints={'ext_funcs': PXB, 'ghost_out': ['g_name', 'g_sub', 'g_anc'], 'var_types': {'fields': 'Map[str,Obj]'}})
+    # back references: a type reference read from the stream denotes the descriptor decoded at that position (the encoder side proves that every reference written is
+    # the position of an already registered id).  An out-of-range reference raises IndexError in the real code (the `except KeyError` never fires for a list) -- declared.
+    w.classes['PCtx']['codecs_list'] = 'Seq[Obj]'
+    w.contract(SER, '_parse_type_ref', params={'desc': 'Bin', 'ctx': 'PCtx'}, returns='Obj', ghost={'g_off': 'int'}, modifies=[],
+        ghost_after={'offset = desc.read_ui16()': [('g_off', 'offset')]},
+        ensures=['0 <= g_off and g_off < len(ctx.codecs_list)', 'result == ctx.codecs_list[g_off]'],
+        raises={'IndexError': {'ensures': ['g_off >= len(ctx.codecs_list)']}, 'InternalServerError': {}},
+        hints={'ghost_out': ['g_off']})
+    # one record of the stream: a descriptor record appends exactly ONE entry to the position table (so the decoder's positions are the encoder's: one per descriptor,
+    # in stream order), an annotation record (tag byte >= 0x80) appends none, any other unknown tag is refused; nothing already decoded is touched.
+    w.ufunc('ISTAG', ['Seq[int]'], 'bool'); w.ufunc('DESCOF', ['Bin', 'int'], 'Obj')
+    PARSE_X = dict(PXB)
+    PARSE_X['DescriptorTag'] = dict(params={'t': 'Seq[int]'}, returns='DescriptorTag', ensures=['ISTAG(t)'], raises={'ValueError': {'ensures': ['not ISTAG(t)']}}, modifies=[])
+    PARSE_X['_parse_descriptor'] = dict(params={'tag': 'DescriptorTag', 'desc': 'Bin', 'ctx': 'PCtx'}, returns='Obj', modifies=[], raises={'ProtocolError': {}, 'NotImplementedError': {}, 'IndexError': {}, 'InternalServerError': {}})
+    w.contract(SER, '_parse', params={'desc': 'Bin', 'ctx': 'PCtx'}, returns='none', ghost={'g_t': 'Seq[int]'}, modifies=['PCtx.codecs_list'],
+        ghost_after={'t = desc.read_bytes(1)': [('g_t', 't')]},
+        ensures=['len(g_t) == 1',
+                 'implies(ISTAG(g_t), len(ctx.codecs_list) == len(old(ctx.codecs_list)) + 1)',
+                 'implies(not ISTAG(g_t), g_t[0] >= 128 and len(ctx.codecs_list) == len(old(ctx.codecs_list)))',
+                 'forall(0, len(old(ctx.codecs_list)), lambda k: ctx.codecs_list[k] == old(ctx.codecs_list)[k])'],
+        raises={'NotImplementedError': {}, 'ProtocolError': {}, 'IndexError': {}, 'InternalServerError': {}},
+        hints={'ext_funcs': PARSE_X, 'ghost_out': ['g_t']})
+    # the remaining straight-line decoders: each own field of the result is the value read for it (ghost capture at the read), ancestors only for protocol >= 2.0
+    ANC = ['implies(ctx.protocol_version >= (2, 0), result.ancestors is not None and result.ancestors == g_anc)', 'implies(not (ctx.protocol_version >= (2, 0)), result.ancestors is None)']
+    GA_ANC = {'ancestors = _parse_type_refs(desc, ctx=ctx)': [('g_anc', 'ancestors')]}
+    PXS = dict(PXB); PXS['_parse_strings'] = dict(params={'desc': 'Bin'}, returns='Seq[str]', modifies=[])
+    w.ext_methods['Bin.read_i32'] = dict(params={}, returns='int', modifies=[])
+    w.refclass('EnumD', {'ancestors': 'Opt[Seq[Obj]]', 'names': 'Seq[str]'}, SER, 'EnumDesc')
+    w.contract(SER, '_parse_enum_descriptor', params={'_tag': 'Obj', 'desc': 'Bin', 'ctx': 'PCtx'}, returns='EnumD', ghost={'g_anc': 'Seq[Obj]', 'g_names': 'Seq[str]'}, modifies=['$alloc'],
+        ghost_after=dict(GA_ANC, **{'names = _parse_strings(desc)': [('g_names', 'names')]}), ensures=['result.names == g_names'] + ANC, hints={'ext_funcs': PXS, 'ghost_out': ['g_anc', 'g_names']})
+    for fn_, cls_, nm_ in (('_parse_range_descriptor', 'RangeDesc', 'RngD'), ('_parse_multirange_descriptor', 'MultiRangeDesc', 'MRngD')):
+        w.refclass(nm_, {'ancestors': 'Opt[Seq[Obj]]', 'inner': 'Obj'}, SER, cls_)
+        w.contract(SER, fn_, params={'_tag': 'Obj', 'desc': 'Bin', 'ctx': 'PCtx'}, returns=nm_, ghost={'g_anc': 'Seq[Obj]', 'g_sub': 'Obj'}, modifies=['$alloc'],
+            ghost_after=dict(GA_ANC, **{'subtype = _parse_type_ref(desc, ctx=ctx)': [('g_sub', 'subtype')]}), ensures=['result.inner == g_sub'] + ANC, hints={'ext_funcs': PXS, 'ghost_out': ['g_anc', 'g_sub']})
+    w.refclass('ArrD', {'ancestors': 'Opt[Seq[Obj]]', 'dim_len': 'int'}, SER, 'ArrayDesc')
+    w.contract(SER, '_parse_array_descriptor', params={'_tag': 'Obj', 'desc': 'Bin', 'ctx': 'PCtx'}, returns='ArrD', ghost={'g_anc': 'Seq[Obj]', 'g_dims': 'int'}, modifies=['$alloc'],
+        ghost_after=dict(GA_ANC, **{'els = desc.read_ui16()': [('g_dims', 'els')]}), ensures=['result.dim_len == -1', 'g_dims == 1'] + ANC, raises={'NotImplementedError': {}},
+        hints={'ext_funcs': PXS, 'ghost_out': ['g_anc', 'g_dims']})
     return w
 
 # ---------------------------------------------------------------------------------------------------------------------
